@@ -24,9 +24,11 @@ CONTRACT_NOTE = ("Assume/guarantee decomposition: functions that only move bytes
 CLAIMS = {
     "C01": ("§5 C01",
             "Solver-decided: the position/size arithmetic that writer and readers must agree on for EVERY alignment — tagged/untagged "
-            "position maps, encryption seek and sequential read bookkeeping, compression size-table lookups, block change and re-sync, "
-            "per-file run bookkeeping, position-layer byte counting. Byte fidelity through real AES/brotli/SHA-256 and the HashMap-based "
-            "name/offset index are outside.",
+            "position maps, encryption seek and sequential read bookkeeping, the encryption writer step (chunk roll-over, tag placement, "
+            "counter, keystream position; enumerated size pairs at scaled constants), compression size-table lookups, block change and "
+            "re-sync, per-file run bookkeeping, position-layer byte counting, hashing of exactly the bytes copied. Byte fidelity through "
+            "real AES/brotli/SHA-256, the compression WRITER and the HashMap-based name/offset index are outside (seeded changes C01-A/B "
+            "there are missed, see DESIGN §13.7).",
             CONTRACT_NOTE + "Not decided: ArchiveWriter/ArchiveReader API level (HashMaps, bincode footer), hashing, compression levels, recipients."),
     "C02": ("§5 C02",
             "Solver-decided for the layer fail-safe readers that repair consumes: for ANY cut length (also inside a tag, 1..15 bytes after a "
@@ -53,8 +55,8 @@ CLAIMS = {
     "C06": ("§5 C06",
             "Solver-decided: format constants and block-type bytes for all 256 tag values, exact serialisation bytes of every block kind, "
             "chunk nonce = archive nonce || big-endian index, chunk/tag/block size constants used by the position maps.",
-            CONTRACT_NOTE + "Not decided here: an independent decoder of real AES/brotli bytes, bincode header/footer layout, HKDF info strings, "
-            "GCM split invariance (thorough-tier harness if present)."),
+            CONTRACT_NOTE + "Real AES/GHASH/HKDF/X25519 values are checked only in the native replay templates (independent aes-gcm/hkdf crates), "
+            "not by the solver. Not decided: bincode header/footer layout, brotli bit stream, layer order in from_config."),
     "C07": ("§5 C07",
             "Solver-decided over model rand/x25519/HKDF primitives: the symmetric key and archive nonce of every configuration are the "
             "generator output for OS entropy drawn for that configuration (never a constant or a fixed seed; distinct entropy gives "
@@ -75,7 +77,7 @@ CLAIMS = {
             "Solver-decided for the block serialisation kernel: a refused file start (name > 65536 bytes) writes nothing; a content source "
             "shorter than the announced size is never reported as success; a successful dump writes exactly header + announced bytes.",
             CONTRACT_NOTE + "Not decided: everything that needs ArchiveWriter's state (files_info / ids_info / hashes HashMaps): duplicate names, "
-            "unknown or ended ids, finalisation order."),
+            "unknown or ended ids, finalisation order (seeded change C09-B there is missed; even HashMap::new() did not finish)."),
     "C10": ("§5 C10",
             "Solver-decided as post-state independence: after seek(Start(p)) the observable reader state of the encryption and compression "
             "readers is a function of p and the stream only, whatever the (fully symbolic) pre-state; per-file reader bookkeeping for any "
@@ -98,14 +100,14 @@ CLAIMS = {
             "callbacks, and with handle slots that hold NULL (handles the interface cleared on release) returns BadAPIArgument without "
             "dereferencing anything and without consuming the configuration; the callback-backed Write/Read adapters return exactly the "
             "count the callback reported and map a non-zero status to an error.",
-            "Harness module appended to the real bindings/C/src/lib.rs; the mla dependency is the overlay copy (model crates for "
-            "aes/ctr/ghash/brotli). Not decided: archives produced or extracted through the C API (PEM parsing, RNG, HashMap-based linear "
-            "extraction)."),
+            "Harness module appended to the real bindings/C/src/lib.rs; the mla dependency is a harness-free overlay copy (model crates for "
+            "aes/ctr/ghash/brotli). Not decided: archives produced or extracted through the C API and handle lifetime behind a real writer "
+            "(PEM parsing, RNG, HashMaps; seeded change C20-B there is missed)."),
     "C14": ("§5 C14",
             "Solver-decided: when its input ends the fail-safe decompressor first delivers everything the decoder still holds (no Ok(0)/Err "
             "with pending output), and flush of the position layer reaches the inner writer.",
-            CONTRACT_NOTE + "Assumes brotli's flush makes all input decodable (brotli contract). Not decided: flush propagation through the real "
-            "CompressorWriter, the repair loop."),
+            CONTRACT_NOTE + "Assumes brotli's flush makes all input decodable (brotli contract). Not decided: flush propagation through the "
+            "compression WRITER (seeded change C14-A there is missed), the repair loop."),
 }
 
 NOT_APPLICABLE = {
@@ -148,10 +150,13 @@ def main():
         "version": 1,
         "setup_cmd": "bin/setup",
         "hooks": {
-            "guard": "none",
-            "enable": "no hook in /repo: harness modules are appended to a scratch copy of the working tree (bin/overlay.py) and compiled with cfg(kani)",
+            "guard": "cargo feature `mla_verif` of the mla crate (off by default)",
+            "enable": "harnesses marked `//@ scaled: yes` are built with `cargo kani --features mla_verif` on the overlay copy of the working tree "
+                      "(scaled-down layer size constants: chunk 4, cipher buffer 3, compression block 8, fail-safe cache 8, repair buffer 8); "
+                      "every other harness uses the production constants with the feature off. Harness modules themselves are appended to a "
+                      "scratch copy (bin/overlay.py) under cfg(kani): nothing else is added to /repo",
             "baseline_off_cmd": "cd /repo && cargo test --workspace --no-fail-fast --offline",
-            "source_commits": [],
+            "source_commits": ["91bca98"],
             "add_only": True,
         },
         "engines": [{
